@@ -12,11 +12,12 @@ def sh(cmd, **kw):
 man = json.load(open('/verif/MANIFEST.json'))
 tot = {'ok': 0, 'alarm': 0, 'broken': 0, 'skipped': 0}
 for patch in sys.argv[1:]:
+    patch = os.path.abspath(patch)
     st = sh('git -C /repo status --porcelain --untracked-files=no').stdout.strip()
     if st:
         print('repo not clean:', st); sys.exit(2)
     if sh('git -C /repo apply --check %s' % patch).returncode:
-        print('%-40s does not apply to the current HEAD (skipped)' % os.path.relpath(patch, '/tmp')); tot['skipped'] += 1
+        print('%-40s does not apply to the current HEAD (skipped)' % os.path.relpath(patch, '/verif') if patch.startswith('/verif') else os.path.relpath(patch, '/tmp')); tot['skipped'] += 1
         continue
     sh('git -C /repo apply %s' % patch)
     try:
@@ -28,12 +29,12 @@ for patch in sys.argv[1:]:
         sh('git -C /repo checkout -- .')
     bad = [(c['property_id'], r) for c, r in res if r.returncode != 0]
     if not bad:
-        print('%-40s silent on all 20 checks' % os.path.relpath(patch, '/tmp')); tot['ok'] += 1
+        print('%-40s silent on all 20 checks' % os.path.relpath(patch, '/verif') if patch.startswith('/verif') else os.path.relpath(patch, '/tmp')); tot['ok'] += 1
     for pid, r in bad:
         kind = 'FALSE-ALARM' if r.returncode == 1 else 'BROKEN(exit %d)' % r.returncode
         tot['alarm' if r.returncode == 1 else 'broken'] += 1
         lines = [l.strip() for l in r.stdout.splitlines() if l.startswith('  SA-') or l.startswith('ANALYSIS-ERROR')]
-        print('%-40s %s %s' % (os.path.relpath(patch, '/tmp'), kind, pid))
+        print('%-40s %s %s' % (os.path.relpath(patch, '/verif') if patch.startswith('/verif') else os.path.relpath(patch, '/tmp'), kind, pid))
         for l in lines[:3]:
             print('        ', l[:230])
 print(tot)
